@@ -106,6 +106,62 @@ def _run_variant(args):
         shutil.rmtree(tmp, ignore_errors=True)
 
 
+ARCHIVE = os.path.join(os.path.dirname(os.path.dirname(os.path.abspath(__file__))), "seeded")
+
+
+def archive_entries():
+    """Entries of seeded/index.json: independently produced patches with a confirmed effect -
+    kind 'seed' (breaks `property`; the check of that property must report something new) or 'benign' (behaviour preserving;
+    no check may report anything new)."""
+    p = os.path.join(ARCHIVE, "index.json")
+    if not os.path.exists(p):
+        return []
+    try:
+        with open(p) as f:
+            return json.load(f)
+    except Exception:
+        return []
+
+
+def _apply_patch(root, patch_path):
+    import subprocess
+    for cmd in (["patch", "-p1", "-s", "--no-backup-if-mismatch", "-i", patch_path], ["git", "apply", "--unsafe-paths", "--directory=.", patch_path]):
+        try:
+            r = subprocess.run(cmd, cwd=root, stdout=subprocess.PIPE, stderr=subprocess.STDOUT)
+            if r.returncode == 0:
+                return True
+        except OSError:
+            continue
+        # a failed attempt may leave partial edits behind: start over from a fresh copy
+        return False
+    return False
+
+
+def _run_archived(args):
+    pid, modname, entry, base_keys = args
+    import importlib
+    mod = importlib.import_module(modname)
+    name = entry["name"]
+    tmp = tempfile.mkdtemp(prefix="ssepy_arch_")
+    try:
+        copy_tree(tmp)
+        if not _apply_patch(tmp, os.path.join(ARCHIVE, entry["path"], "patch.diff")):
+            return (name, "skipped", "patch does not apply to the current tree", [])
+        code, rules, viols, out = core.run_property(pid, mod, root=tmp, quiet=True, write_evidence=False)
+        if code == 2:
+            return (name, "analysis-error", "; ".join(out), [])
+        new = [f.key for r in rules for f in r.findings if f.key not in base_keys]
+        if entry["kind"] == "seed":
+            if new:
+                return (name, "ok", "caught by %s" % new[0], new)
+            return (name, "MISSED", "archived defect of %s not reported" % pid, new)
+        if new:
+            return (name, "FALSE-ALARM", "behaviour-preserving patch reported: %s" % new[:2], new)
+        return (name, "ok", "silent", [])
+    finally:
+        shutil.rmtree(tmp, ignore_errors=True)
+
+
 def run(pid, mod, seed=0, verbose=True):
     variants = getattr(mod, "VARIANTS", None)
     if not variants:
@@ -116,14 +172,23 @@ def run(pid, mod, seed=0, verbose=True):
     code, rules, viols, _ = core.run_property(pid, mod, quiet=True, write_evidence=False)
     base_keys = [f.key for r in rules for f in r.findings]
     jobs = [(pid, mod.__name__, i, base_keys) for i in range(len(variants))]
-    with multiprocessing.Pool(min(16, len(jobs))) as pool:
+    arch = [e for e in archive_entries() if e["kind"] == "benign" or (e["kind"] == "seed" and e.get("property") == pid and e.get("own", True))]
+    ajobs = [(pid, mod.__name__, e, base_keys) for e in arch]
+    with multiprocessing.Pool(min(16, len(jobs) + len(ajobs))) as pool:
         results = pool.map(_run_variant, jobs)
+        aresults = pool.map(_run_archived, ajobs) if ajobs else []
+    results = list(results) + list(aresults)
     bad = 0
+    quiet_ok = 0
     for name, status, msg, new in results:
-        if verbose:
+        if verbose and (status != "ok" or not name.startswith("benign/")):
             print("  selftest %-44s %-12s %s" % (name, status, msg[:150]))
+        elif status == "ok":
+            quiet_ok += 1
         if status in ("MISSED", "FALSE-ALARM", "analysis-error"):
             bad += 1
+    if verbose and quiet_ok:
+        print("  selftest %d archived behaviour-preserving patches: silent" % quiet_ok)
     # extend the evidence file written by the quick part
     evp = os.path.join(core.VERIF, "evidence", "%s.json" % pid)
     try:
